@@ -5,8 +5,8 @@
 (* decoding pull over a cut connection must not return a value.                    *)
 EXTENDS Integers, Sequences, TLC, Json, IOUtils
 Rec == ndJsonDeserialize(IOEnv.TRACE)
-VARIABLES dest, tmp, got, lastSeen, synced, verified, phase, l
-P == INSTANCE PullCommit WITH Chunks <- 1, PreDest <- "absent"
+VARIABLES dest, tmp, got, lastSeen, synced, verified, phase, mode, l
+P == INSTANCE PullCommit WITH Chunks <- 1, RequireEnd <- TRUE, PreDest <- "absent"
 E == Rec[l]
 ASSUME TLCSet(2, <<>>)
 \* which scenarios must fail / must succeed
@@ -26,9 +26,9 @@ Bad(e) ==
     ELSE ""
 Step == /\ l <= Len(Rec) /\ l' = l + 1
         /\ LET k == Bad(E) IN (k # "") => TLCSet(2, Append(TLCGet(2), <<l, k>>))
-        /\ UNCHANGED <<dest, tmp, got, lastSeen, synced, verified, phase>>
-Init == P!Init /\ l = 1
-Spec == Init /\ [][Step]_<<dest, tmp, got, lastSeen, synced, verified, phase, l>>
+        /\ UNCHANGED <<dest, tmp, got, lastSeen, synced, verified, phase, mode>>
+Init == P!Init /\ mode = "blocking" /\ l = 1
+Spec == Init /\ [][Step]_<<dest, tmp, got, lastSeen, synced, verified, phase, mode, l>>
 Accepted == /\ PrintT(<<"MISMATCHES", ToJson(TLCGet(2))>>)
             /\ IF TLCGet("stats").diameter = Len(Rec) + 1 THEN TRUE
                ELSE PrintT(<<"UNMATCHED", TLCGet("stats").diameter>>) /\ FALSE
